@@ -113,4 +113,72 @@ mod proofs {
         std::mem::forget(r);
         std::mem::forget(hpack);
     }
+
+    // ---- calc_max_continuation_frames (C18), from the hpack work package
+
+
+    /// requires: 2^14 <= frame_max <= 2^24 - 1.  Call sites: `FramedRead::set_max_frame_size` asserts
+    /// exactly this range before the call; `set_max_header_list_size` passes `self.max_frame_size()`,
+    /// i.e. a value stored by the former; `FramedRead::new` passes tokio-util's default
+    /// max_frame_length (8 MiB = 2^23).  `header_max` is any usize (set_max_header_list_size(u32 as usize),
+    /// DEFAULT_SETTINGS_MAX_HEADER_LIST_SIZE).
+    fn any_frame_max() -> usize {
+        let f: usize = kani::any();
+        kani::assume(DEFAULT_MAX_FRAME_SIZE as usize <= f && f <= MAX_MAX_FRAME_SIZE as usize);
+        f
+    }
+
+    // Full usize x [2^14, 2^24) domain, loop-free: complete.  No panic (division by zero, overflow) and
+    // the floor of 5.
+    // @harness id=fr_calc_max_continuation_total props=C18 kind=complete tier=quick fn=calc_max_continuation_frames
+    #[kani::proof]
+    fn fr_calc_max_continuation_total() {
+        let header_max: usize = kani::any();
+        let frame_max = any_frame_max();
+        let r = calc_max_continuation_frames(header_max, frame_max);
+        assert!(r >= 5, "fr.calc_max_continuation.at_least_5");
+        kani::cover!(r > 5, "cover.above_floor");
+        kani::cover!(header_max == usize::MAX && frame_max == 16_384, "cover.usize_max");
+    }
+
+    /// requires header_max <= u32::MAX: every call site passes a u32 setting widened to usize
+    /// (`codec.set_max_recv_header_list_size(max as usize)` with `max: u32`,
+    /// DEFAULT_SETTINGS_MAX_HEADER_LIST_SIZE = 16 MiB).  Needed for tractability only.
+    fn any_header_max() -> usize {
+        let h: u32 = kani::any();
+        h as usize
+    }
+
+    // The value, stated without a second division (relating two symbolic 64-bit divisions is out of
+    // reach for SAT; `r >= h / f` is written `(r + 1) * f > h`):
+    //   * enough frames for a maximal legal header list — the flood guard never fires on a block that
+    //     respects SETTINGS_MAX_HEADER_LIST_SIZE and fills its frames;
+    //   * bounded by the advertised header limit alone: at most 125 % of header_max / 16 KiB, or 5.
+    // @harness id=fr_calc_max_continuation_frames props=C18 kind=complete tier=quick solver=cadical fn=calc_max_continuation_frames
+    #[kani::proof]
+    fn fr_calc_max_continuation_frames() {
+        let header_max = any_header_max();
+        let frame_max = any_frame_max();
+        let r = calc_max_continuation_frames(header_max, frame_max);
+        assert!((r as u64 + 1) * (frame_max as u64) > header_max as u64, "fr.calc_max_continuation.enough_for_max_header_list");
+        assert!(r == 5 || r <= (header_max >> 14) + (header_max >> 16), "fr.calc_max_continuation.bounded_by_header_limit");
+        kani::cover!(r == 5 && header_max > 4 * frame_max, "cover.floor_applies_above_need");
+        kani::cover!(r > 5 && header_max < 1 << 20, "cover.scales_with_header_limit");
+    }
+
+    // Monotone in header_max: raising SETTINGS_MAX_HEADER_LIST_SIZE never lowers the quota.  Two symbolic
+    // calls; bounded to header limits below 1 MiB (quotients <= 64) — the full range needs the
+    // monotonicity of floor division, which SAT does not find at 32 x 24 bits (> 5 min).
+    // @harness id=fr_calc_max_continuation_monotone props=C18 kind=bounded bound=header_max<2^20 tier=quick solver=cadical fn=calc_max_continuation_frames
+    #[kani::proof]
+    fn fr_calc_max_continuation_monotone() {
+        let h1: usize = kani::any();
+        let h2: usize = kani::any();
+        kani::assume(h1 <= h2 && h2 < (1 << 20));
+        let f = any_frame_max();
+        let r1 = calc_max_continuation_frames(h1, f);
+        let r2 = calc_max_continuation_frames(h2, f);
+        assert!(r1 <= r2, "fr.calc_max_continuation.monotone_in_header_max");
+        kani::cover!(r1 < r2, "cover.strictly_more");
+    }
 }
